@@ -53,6 +53,28 @@ def make_cases(run, scratch):
         desc = S.gen_synthetic(rng)
         cfg = S.filter_lines(rng) + ["flags %d" % flag_choices(rng, "syn")]
         cases.append(("synthetic:%s|%s" % (desc, ";".join(cfg)), cfg + ["src synthetic " + desc], "synthetic"))
+    # richer streams from the other builders' generators: synthetic grammar (typed/untyped, index
+    # interleaving, attached memory) and random XML trees (asymmetric, MemCache, Groups, I/O, Misc)
+    try:
+        from gen import synthetic_gen as SG
+        for i in range(120 if quick else 4000):
+            desc = SG.gen_valid(rng, maxpus=64) if rng.random() < 0.8 else SG.gen_untyped(rng)
+            cfg = S.filter_lines(rng) + ["flags %d" % flag_choices(rng, "syn")]
+            cases.append(("synthetic2:%s|%s" % (desc, ";".join(cfg)), cfg + ["src synthetic " + desc], "synthetic2"))
+    except Exception as e:      # the generator belongs to another check: its absence must not break this one
+        run.cov["synthetic2_generator_unavailable"] = repr(e)
+    try:
+        from gen import restrict_gen as RG
+        for i in range(100 if quick else 3000):
+            root, pus, numas = RG.gen_tree(rng)
+            xml = RG.tree_to_xml(root, dont_merge_groups=rng.random() < 0.1)
+            path = os.path.join(scratch.dir, "gen%d.xml" % i)
+            with open(path, "w") as f:
+                f.write(xml)
+            cfg = (S.filter_lines(rng) if rng.random() < 0.7 else []) + ["flags %d" % flag_choices(rng, "xml")]
+            cases.append(("genxml:%d|%s" % (i, ";".join(cfg)), ["env HWLOC_LIBXML_IMPORT %d" % (i % 2)] + cfg + ["src xml " + path], "genxml"))
+    except Exception as e:
+        run.cov["genxml_generator_unavailable"] = repr(e)
     xmls = S.xml_corpus()
     reps = 1 if quick else 12
     for x in xmls:
